@@ -112,7 +112,7 @@ type ContractSet struct {
 }
 
 var clauseKeywords = map[string]bool{
-	"func": true, "spec": true, "extern": true, "iface": true, "closure": true, "requires": true, "ensures": true,
+	"func": true, "spec": true, "extern": true, "iface": true, "closure": true, "callback": true, "requires": true, "ensures": true,
 	"loop": true, "modifies": true, "inline": true, "noinline": true, "trusted": true, "pure": true, "lemma": true,
 	"axiom": true, "ghost": true, "type": true, "opaque": true, "noreturn": true, "replay": true, "recspec": true, "uspec": true, "uses": true, "nilable": true, "typedheap": true, "lemmas": true,
 }
@@ -214,7 +214,7 @@ func (cs *ContractSet) LoadFile(path, pkgPath string) {
 			return &Clause{Kind: kind, Label: label, Props: props, Src: src, Expr: e, File: path, Line: ll.line}
 		}
 		switch word {
-		case "func", "extern", "iface", "closure":
+		case "func", "extern", "iface", "closure", "callback":
 			m := funcHdrRe.FindStringSubmatch(rest)
 			if m == nil {
 				cs.errf(path, ll.line, "bad header %q", rest)
@@ -248,6 +248,13 @@ func (cs *ContractSet) LoadFile(path, pkgPath string) {
 			}
 			if word == "iface" {
 				k = "iface::" + qualify(pkgPath, c.Key)
+			}
+			if word == "callback" {
+				// callback (recv *T) Func.param(args): the contract assumed of (and obligations at calls of) a function-typed parameter
+				k = pkgPath + "::callback:" + c.Key
+				if m[3] != "" && m[1] != "" && len(c.ParamNames) > 0 && false {
+					_ = k
+				}
 			}
 			if old, dup := cs.Contracts[k]; dup {
 				cs.errf(path, ll.line, "duplicate contract for %s (first at line %d)", k, old.Line)
